@@ -292,7 +292,7 @@ MANIFEST = dict(
     text="Proof: for every storage-unit size 1..8, width 1..8*size, shift with shift+width <= 8*size, every unit content "
          "and every Python int v, the model of convert_from_object_bitfield evaluates no undefined C operation, accepts "
          "iff v is in the field's range (plus 1 for a signed 1-bit field), then reads back v (-1 in that case), changes "
-         "no bit outside [shift, shift+width), rejects with OverflowError leaving memory unchanged, and the read equals "
+         "no bit outside [shift, shift+width) and no byte of the enclosing object outside the unit, rejects with OverflowError leaving memory unchanged, and the read equals "
          "the two's-complement value of those bits (what C reads). Tied on every run by regenerating the mask/shift "
          "expressions from the source and by exercising real structs over (type, width, shift) placements.",
     note="Trusted: Coq kernel; hand model C02/Model.v (differential tie + regenerated expressions); translator; gcc as "
